@@ -90,7 +90,12 @@ class DagWalker(Walker):
     def iter_walk(self, expression: FNode, **kwargs):
         """Performs an iterative walk of the DAG"""
         self.stack.append((False, expression))
-        self._process_stack(**kwargs)
+        try:
+            self._process_stack(**kwargs)
+        except BaseException:
+            # do not leave the entries of a failed walk to the next one
+            self.stack.clear()
+            raise
         res_key = self._get_key(expression, **kwargs)
         return self.memoization[res_key]
 
@@ -98,10 +103,11 @@ class DagWalker(Walker):
         if expression in self.memoization:
             return self.memoization[expression]
 
-        res = self.iter_walk(expression, **kwargs)
-
-        if self.invalidate_memoization:
-            self.memoization.clear()
+        try:
+            res = self.iter_walk(expression, **kwargs)
+        finally:
+            if self.invalidate_memoization:
+                self.memoization.clear()
         return res
 
     def _get_key(self, expression: FNode, **kwargs):
